@@ -506,10 +506,10 @@ def _write_external_data(
             shutil.copymode(destination_path, temporary_path)
         os.replace(temporary_path, destination_path)
     finally:
-        with contextlib.suppress(FileNotFoundError):
-            os.remove(temporary_path)
-        with contextlib.suppress(FileNotFoundError):
-            os.rmdir(temporary_dir)
+        # The temporary directory holds nothing but the temporary file: remove both
+        # whatever state they are in (the file may be missing, or - for a destination
+        # that names a directory - not be a file at all)
+        shutil.rmtree(temporary_dir, ignore_errors=True)
 
     for tensor in overwritten_tensors:
         tensor.invalidate()
